@@ -90,7 +90,7 @@ def run_impl(inp, work):
         if inp['occupant'] == 'group':
             dest.create_group(name0)
         elif inp['occupant']:
-            shp = {'other_shape': (n + 1, m), 'transposed': ((m, n) if m != n else (n * m, 1))}.get(inp['occupant'], (n, m))
+            shp = {'other_shape': (n + 1, m), 'transposed': ((m, n) if m != n else (n * m + 1, 1))}.get(inp['occupant'], (n, m))
             dt = DTYPES[inp['calls'][0]['dtype']] if inp['occupant'] != 'other_dtype' else np.int16
             if inp['occupant'] == 'wider_dtype':      # the same kind of number, twice as wide
                 dt = {'f4': np.float64, 'c8': np.complex128,
@@ -228,7 +228,7 @@ def model_requests_obs(inp, obs):
         if inp['occupant'] == 'other_shape':
             shp[0] += 1
         elif inp['occupant'] == 'transposed':
-            shp = [shp[1], shp[0]] if shp[0] != shp[1] else [shp[0] * shp[1], 1]
+            shp = [shp[1], shp[0]] if shp[0] != shp[1] else [shp[0] * shp[1] + 1, 1]
         dt = inp['calls'][0]['dtype'] if inp['occupant'] not in ('other_dtype', 'wider_dtype') else \
             ('int16' if inp['occupant'] == 'other_dtype' else 'wide-' + inp['calls'][0]['dtype'])
         group.append({'name': inp['calls'][0]['name'].replace('-', '_'), 'kind': 'dataset',
